@@ -7,12 +7,25 @@ def _toks(i):
 
 
 def c08_nontrivial(c, i):
+    if c[0] == "c08.stopstress":
+        return True
     # at least one batch went through seal and commit
     return "s" in i and "cb" in i
 
 
 def c08_classify(c, i):
     out = []
+    if c[0] == "c08.stopstress":
+        return ["stop-stress(gate-free)", "stress-adders=" + c[2], "stress-workers=" + c[3], "stress-result=" + (i[0] if i else "?")]
+    if c[0] == "c08.trickle":
+        out = ["trickle", "trickle-timeout=%sms" % c[2], "trickle-gap=%sms" % c[3]]
+        sizes = [c[7 + 2 * k] for k in range(int(c[6]))]
+        if sizes and sizes[0] == "0": out.append("trickle-starts-with-zero-size")
+        if "h" in i: out.append("heartbeat-seen")
+        for j, t in enumerate(i):
+            if t == "s" and j + 2 < len(i) and i[j + 2] == "2":
+                out.append("sealed-by-timeout"); break
+        return out
     try:
         workers, count, nbytes, tmode, adders, stop_at, race = c[1], c[2], c[3], c[4], c[5], c[7], c[8]
         out.append("workers=" + workers)
@@ -55,6 +68,40 @@ def fact_commit_wait(repo):
     return True, ""
 
 
+def fact_send_before_unlock(repo):
+    """trySendBatchAndUnlock: on the sealing path the channel send precedes mu.Unlock (the model's `enqueueLocked` shape);
+    otherwise Stop can close fullBatches between the two (stop_safe_counterexample)"""
+    src = open(repo + "/pipeline/batch.go").read()
+    m = re.search(r"func \(b \*Batcher\) trySendBatchAndUnlock\(.*?\n}\n", src, re.S)
+    if not m:
+        return False, "trySendBatchAndUnlock not found"
+    body = re.sub(r"//[^\n]*", "", m.group(0))
+    seal = body.find("batch.seq = b.outSeq")
+    if seal < 0:
+        return False, "sealing path (batch.seq = b.outSeq) not found"
+    tail = body[seal:]
+    sends = [x.start() for x in re.finditer(r"b\.fullBatches\s*<-", tail)]
+    unlocks = [x.start() for x in re.finditer(r"b\.mu\.Unlock\(\)", tail)]
+    if len(sends) != 1 or len(unlocks) != 1:
+        return False, "expected exactly one channel send and one Unlock after the seal, found %d / %d" % (len(sends), len(unlocks))
+    if "defer" in tail or "go func" in tail or re.search(r"\bgo\s", tail):
+        return False, "defer / goroutine on the sealing path: order of send and Unlock cannot be read off the text"
+    if sends[0] > unlocks[0]:
+        return False, "b.mu.Unlock() precedes `b.fullBatches <- batch`: Stop can close the channel in between (send on closed channel)"
+    return True, ""
+
+
+def fact_append_keeps_start(repo):
+    """Batch.append does not touch startTime (model: add_keeps_start); the flush timer starts in reset()"""
+    src = open(repo + "/pipeline/batch.go").read()
+    m = re.search(r"func \(b \*Batch\) append\(.*?\n}\n", src, re.S)
+    if not m:
+        return False, "Batch.append not found"
+    if "startTime" in re.sub(r"//[^\n]*", "", m.group(0)):
+        return False, "Batch.append writes startTime: an append can restart the flush timer"
+    return True, ""
+
+
 def fact_update_status(repo):
     """updateStatus: the readiness condition the model's `readiness` mirrors"""
     src = open(repo + "/pipeline/batch.go").read()
@@ -76,8 +123,10 @@ CFG = {
     "nontrivial": c08_nontrivial,
     "classify": c08_classify,
     "facts": [("commitBatch: Commit inside seqMu after the commitSeq wait", fact_commit_wait),
-              ("updateStatus readiness conditions", fact_update_status)],
-    "rule": "small scope first (workers 1..4 x count 1..5 x byte limits, 1-12 events), then random configurations: workers 1..4, count 0..5, bytes 0..64, event sizes 0..40, kind mixes (regular / child / child-parent, parent-only batches), 1-3 concurrent adders, PRNG order of Add / OutFn release / commit-gate release, Stop at a PRNG position (2/3 of them inside the b.enqueue gate window), 3% with a 3 ms flush timeout and traffic pauses; distinct = distinct case line; non-trivial = at least one batch sealed and committed",
+              ("updateStatus readiness conditions", fact_update_status),
+              ("trySendBatchAndUnlock: channel send precedes mu.Unlock", fact_send_before_unlock),
+              ("Batch.append leaves startTime alone", fact_append_keeps_start)],
+    "rule": "gate-free Stop stress first (6 x 150 rounds of 4-8 concurrent adders, count 1, 2-4 workers, Stop mid-traffic; result ok | panic | unsent-commit), 5 slow trickles (gap = 1/3..1/5 of a 120-200 ms flush timeout, count limit 1000, zero-size / child / sized events first-last-mixed; oracle = at most timeout/100+4 heartbeat iterations between an event's own append and the seal of its batch), then small scope (workers 1..4 x count 1..5 x byte limits, 1-12 events), then random configurations: workers 1..4, count 0..5, bytes 0..64, event sizes 0..40, kind mixes (regular / child / child-parent, parent-only batches), 1-3 concurrent adders, PRNG order of Add / OutFn release / commit-gate release, Stop at a PRNG position (2/3 of them inside the b.enqueue gate window), 3% with a 3 ms flush timeout and traffic pauses; distinct = distinct case line; non-trivial = at least one batch sealed and committed",
     "corr_name": "Batcher.step? accepts the observed boundary trace and computes the same seq/status/ForEach ids/commit ids",
     "trusted_base": [
         "Go runtime semantics of sync.Mutex, sync.Cond, channels (modelled, not verified); one model op per critical section of batch.go",
@@ -88,6 +137,6 @@ CFG = {
                     "weak fairness of the Go scheduler"],
     "chunk": 400,
     "timeout": 1200,
-    "widen_seeds": 1,
-    "widen_cases": 800,
+    "widen_seeds": 2,
+    "widen_cases": 400,
 }
